@@ -805,7 +805,7 @@ def explore_line(progs, files, bound, scan, opcodes=False, budget=None, rng=None
             for k in range(last, r.nyield):
                 me, _, _, others = r.trace[k]
                 for u in others:
-                    frontier.append((dict(P, **{k: u}), start))
+                    frontier.append(({**P, k: u}, start))
 
 
 def model_schedule(progs, order):
@@ -893,3 +893,355 @@ def oracle(progs, w, eff_order):
     if ref is not None and not any(b.startswith("register") for b in bad) and sorted(tab.items()) != ref[2]:
         bad.append(f"register: final table {sorted(tab.items())} differs from last-writer-wins {ref[2]}")
     return bad
+
+
+# ----------------------------------------------------------------------------- generators
+
+EVAL_OPTS = [31, 32, 41, 42, 57]       # 10*X + Y : 31/32 and 41/42 share a fingerprint (Y is not read)
+
+FIXED_OP = [
+    ("same-runtime", {1: [("enter", 1), ("run", 1), ("exit",), ("run", 1)],
+                      2: [("enter", 1), ("run", 1), ("exit",), ("run", 1)]}),
+    ("nested-shared", {1: [("enter", 2), ("enter", 1), ("run", 1), ("exit",), ("run", 1), ("exit",)],
+                       2: [("enter", 1), ("run", 2), ("exit",), ("run", 1)]}),
+    ("inherit", {1: [("enter", 1), ("exit",), ("enter", 2), ("run", 1)],
+                 2: [("inherit", 1), ("run", 1), ("run", 2)]}),
+    ("inherit-3", {1: [("enter", 3), ("run", 3), ("exit",)], 2: [("inherit", 1), ("run", 3)],
+                   3: [("inherit", 2), ("run", 2)]}),
+    ("register", {1: [("register", 1, 10), ("register", 2, 20)], 2: [("register", 3, 30), ("register", 1, 11)],
+                  3: [("register", 4, 40)]}),
+    ("eval", {1: [("eval", 31), ("eval", 41)], 2: [("eval", 32)], 3: [("eval", 41)]}),
+    ("mixed", {1: [("enter", 1), ("eval", 31), ("register", 1, 10), ("exit",)],
+               2: [("inherit", 1), ("eval", 32), ("register", 1, 11), ("run", 1)]}),
+]
+
+LOST = {1: [("register", 1, 10)], 2: [("register", 2, 20)]}
+
+FIXED_LINE = [
+    # name, progs, files, line bound (quick, thorough), opcode bound (quick, thorough) or None
+    ("lost-update", LOST, ["overload.py"], (2, 3), (1, 2)),
+    ("register-3", {1: [("register", 1, 10)], 2: [("register", 2, 20)], 3: [("register", 1, 11)]},
+     ["overload.py"], (2, 3), None),
+    ("same-runtime", {1: [("enter", 1), ("run", 1), ("exit",), ("run", 1)],
+                      2: [("enter", 1), ("run", 1), ("exit",), ("run", 1)]}, ["runtime.py"], (2, 3), (1, 1)),
+    ("nested-shared", {1: [("enter", 2), ("enter", 1), ("run", 1), ("exit",), ("run", 1), ("exit",)],
+                       2: [("enter", 1), ("run", 2), ("exit",)]}, ["runtime.py"], (2, 2), None),
+    ("inherit", {1: [("enter", 1), ("exit",), ("run", 1)], 2: [("inherit", 1), ("run", 1)]},
+     ["runtime.py"], (2, 3), (1, 1)),
+    ("eval-same-fp", {1: [("eval", 31)], 2: [("eval", 32)]}, ["cache.py"], (2, 3), None),
+    ("eval-diff-fp", {1: [("eval", 31), ("eval", 41)], 2: [("eval", 41)]}, ["cache.py"], (2, 2), None),
+]
+
+
+def gen_prog(rng, me, tids, n, kinds):
+    prog, depth = [], 0
+    for _ in range(n):
+        k = rng.choice(kinds)
+        if k == "handler":
+            c = rng.random()
+            if c < 0.30 and depth < 3:
+                prog.append(("enter", rng.choice([1, 2, 3]))); depth += 1
+            elif c < 0.50 and depth > 0:
+                prog.append(("exit",)); depth -= 1
+            elif c < 0.58 and len(tids) > 1:
+                prog.append(("inherit", rng.choice([t for t in tids if t != me])))
+            else:
+                prog.append(("run", rng.choice([1, 1, 2, 3])))
+        elif k == "register":
+            prog.append(("register", rng.choice([1, 2, 3, 4]), 10 * me + rng.randint(0, 9)))
+        else:
+            prog.append(("eval", rng.choice(EVAL_OPTS)))
+    prog += [("exit",)] * depth
+    if depth and rng.random() < 0.7:
+        prog.append(("run", rng.choice([1, 2])))
+    return prog
+
+
+def gen_progs(rng, nthreads, n, kinds):
+    tids = list(range(1, nthreads + 1))
+    return {t: gen_prog(rng, t, tids, rng.randint(max(1, n - 2), n), kinds) for t in tids}
+
+
+def random_schedule(rng, progs):
+    pool = [t for t, p in progs.items() for _ in p]
+    rng.shuffle(pool)
+    return pool
+
+
+def switches(sched):
+    return sum(1 for a, b in zip(sched, sched[1:]) if a != b)
+
+
+# ----------------------------------------------------------------------------- stress
+
+def stress(rounds, viol, deadline):
+    """free-running threads, tiny switch interval: register and cached-eval workloads"""
+    B = _base()
+    old = sys.getswitchinterval()
+    done = 0
+    sys.setswitchinterval(1e-6)
+    try:
+        for rd in range(rounds):
+            if time.time() > deadline:
+                break
+            w = World(use_dataset=(rd % 4 == 0))
+            nthr, per = 3, 12
+            bar = threading.Barrier(nthr, timeout=WAIT)
+            res = {}
+
+            def work(t):
+                w.tags[t], w.evals[t], w.entered[t] = [], [], []
+                try:
+                    bar.wait()
+                except threading.BrokenBarrierError:
+                    return
+                for j in range(per):
+                    w.exec_op(t, ("register", 100 * t + j, j))
+                    w.exec_op(t, ("eval", 10 * ((t + j) % 4 + 1) + t))
+                    if j % 4 == 0:
+                        w.exec_op(t, ("enter", 1 + (t + j) % 3)); w.exec_op(t, ("run", 2)); w.exec_op(t, ("exit",))
+                res[t] = True
+
+            ths = [threading.Thread(target=work, args=(t,), daemon=True) for t in range(1, nthr + 1)]
+            for i, th in enumerate(ths):
+                w.threads[i + 1] = th
+                th.start()
+            for th in ths:
+                th.join(timeout=WAIT * 2)
+            w.cleanup()
+            if len(res) != nthr:
+                raise Hang("stress round did not finish")
+            done += 1
+            tab = dict(w.table())
+            missing = [100 * t + j for t in range(1, nthr + 1) for j in range(per) if tab.get(100 * t + j) != j]
+            wrong = [(t, o, v) for t in range(1, nthr + 1) for o, v in w.evals[t] if v != o // 10]
+            wtags = [(t, w.tags[t]) for t in range(1, nthr + 1)
+                     if w.tags[t] != [HEAP[1 + (t + j) % 3].get(2, DEFAULTS[2]) for j in range(0, per, 4)]]
+            if missing or wrong or wtags or w.errors:
+                viol.append(dict(desc="stress (switch interval 1e-6): " +
+                                 (f"aliases lost {missing[:4]} " if missing else "") +
+                                 (f"evaluations with another option's value {wrong[:3]} " if wrong else "") +
+                                 (f"handler tags {wtags[:2]} " if wtags else "") +
+                                 (f"errors {w.errors[:2]}" if w.errors else ""),
+                                 kind="stress", round=rd, finding=None))
+                break
+    finally:
+        sys.setswitchinterval(old)
+    return done
+
+
+# ----------------------------------------------------------------------------- the check
+
+class Collector:
+    def __init__(self, flags):
+        self.flags = flags
+        self.all_atomic = all(flags.values())
+        self.cases = {}          # coq expr -> (impl obs, payload)
+        self.mism = []
+        self.viol = []
+        self.viol_keys = set()
+        self.hangs = []
+        self.evals = 0
+        self.distinct = set()
+        self.dist = {"op_runs": 0, "line_runs": 0, "opcode_runs": 0, "line_mapped": 0, "forced_switches": 0,
+                     "ops": {}, "families": {}, "both_computed": 0, "preemptions": {}}
+        self.samples = []
+
+    def count_ops(self, progs):
+        for p in progs.values():
+            for o in p:
+                self.dist["ops"][o[0]] = self.dist["ops"].get(o[0], 0) + 1
+
+    def add_case(self, expr, obs, payload):
+        old = self.cases.get(expr)
+        if old is None:
+            self.cases[expr] = (obs, payload)
+        elif old[0] != obs:
+            self.mism.append(dict(where="two runs with the same effect order observed different results",
+                                  scenario=payload, impl=obs, model=old[0]))
+
+    def add_violation(self, family, bad, payload):
+        key = (family, bad[0].split(":")[0])
+        self.viol_count = getattr(self, "viol_count", 0) + 1
+        if key in self.viol_keys or len(self.viol) >= 8:
+            return
+        self.viol_keys.add(key)
+        self.viol.append(dict(desc=bad[0], all=bad[:4], family=family, finding=None, **payload))
+
+
+def do_op_run(C, family, progs, sched, use_dataset=False):
+    C.evals += 1
+    C.dist["op_runs"] += 1
+    C.dist["families"][family] = C.dist["families"].get(family, 0) + 1
+    payload = dict(kind="op", progs={str(t): p for t, p in progs.items()}, sched=sched, use_dataset=use_dataset)
+    try:
+        obs, order, w = run_oplevel(progs, sched, use_dataset)
+    except Hang as e:
+        C.hangs.append(dict(payload, error=str(e)))
+        return
+    bad = oracle(progs, w, order)
+    if bad:
+        C.add_violation(family, bad, dict(payload, observed=obs))
+    C.add_case(coq_case(C.flags, progs, sched, True), obs, payload)
+    if len(progs) >= 2 and switches(sched) >= 2:
+        C.distinct.add(lib.stable_hash([sorted(progs.items()), sched]))
+    if len(C.samples) < 3 and switches(sched) >= 3:
+        C.samples.append(dict(scenario=payload, observation=obs))
+
+
+def do_line_explore(C, family, progs, files, bound, scan, opcodes, budget, rng):
+    key = "opcode_runs" if opcodes else "line_runs"
+    for r, P, start, err in explore_line(progs, files, bound, scan, opcodes=opcodes, budget=budget, rng=rng):
+        C.evals += 1
+        C.dist[key] += 1
+        C.dist["families"][family] = C.dist["families"].get(family, 0) + 1
+        C.dist["preemptions"][len(P)] = C.dist["preemptions"].get(len(P), 0) + 1
+        payload = dict(kind="line", progs={str(t): p for t, p in progs.items()}, files=files,
+                       preempts={str(k): v for k, v in P.items()}, start=start, opcodes=opcodes)
+        if err:
+            C.hangs.append(dict(payload, error=err))
+            continue
+        C.dist["forced_switches"] += r.forced
+        ms = model_schedule(progs, r.order) if C.all_atomic else None
+        bad = oracle(progs, r.w, ms[1] if ms else None)
+        if bad:
+            C.add_violation(family, bad, dict(payload, observed=r.obs,
+                                              where=[list(r.trace[k][:3]) for k in sorted(P) if k < len(r.trace)]))
+        if len(r.w.computes) > len(set(r.w.computes)):
+            C.dist["both_computed"] += 1
+        if ms:
+            C.dist["line_mapped"] += 1
+            C.add_case(coq_case(C.flags, progs, ms[0], False), r.obs, payload)
+            C.distinct.add(lib.stable_hash([sorted(progs.items()), ms[0]]))
+        if P and len(C.samples) < 6 and len(P) == bound:
+            C.samples.append(dict(scenario=payload, observation=r.obs))
+
+
+def run(ctx):
+    t0 = time.time()
+    rng = ctx.rng
+    quick = ctx.quick
+    mism, notes = [], []
+    # 1. source scan -> flags -> generated obligations
+    try:
+        scan = scan_atomicity(lib.REPO)
+        flags = scan["flags"]
+    except ScanError as e:
+        scan = {"lines": {}, "flags": None, "detail": {}, "info": {}}
+        flags = {n: True for n in FLAG_NAMES}
+        mism.append(dict(where="generated obligation (source scan refused: shape of the shared accesses not recognised)",
+                         error=str(e), impl="unrecognised", model="accesses of _RUNTIMES/_PREVIOUS/self.lookup inside their locks"))
+    obl = write_obligations(ctx, flags)
+    for flag, r in obl.items():
+        if not r["ok"]:
+            for th in r["theorems"]:
+                mism.append(dict(where=f"generated obligation {th}", hypothesis=f"{flag} scanned_flags = true",
+                                 impl=f"{flag} = false in the source (an access is outside its lock)",
+                                 model="true", accesses=[d for v in scan.get("detail", {}).values() for d in v if not d["locked"]][:6],
+                                 error=r["error"]))
+    for n in FLAG_NAMES:
+        if not flags[n] and n not in NEEDED:
+            notes.append(f"{n} is false in the source; no theorem takes it as a hypothesis (isolation is proved for all flag "
+                         f"values, assuming single dict operations are atomic under the GIL)")
+    broke = bool(mism)
+    C = Collector(flags)
+    # 2. the model's losing schedule when the register flag is off
+    if not flags["register_rmw_atomic"]:
+        line = ctx.coq_eval("Lost_C15", ["Model.Threads", "Model.ThreadsRun"], COQ_PRELUDE,
+                            [f"observe {coq_flags(flags)} [] [] lost_progs lost_sched"])[0]
+        notes.append(f"model with register_rmw_atomic=false computes the losing schedule [1;2;1;2]: {line}")
+    # 3. operation level
+    for name, progs in FIXED_OP:
+        C.count_ops(progs)
+        ils = interleavings({t: len(p) for t, p in progs.items()})
+        cap = 400 if quick else 5000
+        if len(ils) > cap:
+            ils = rng.sample(ils, cap)
+        for sched in ils:
+            do_op_run(C, "op/" + name, progs, sched, use_dataset=(name == "eval"))
+    exhaustive_sets = len(FIXED_OP)
+    for i in range(10 if quick else 60):
+        kinds = rng.choice([["handler"], ["handler"], ["register"], ["eval"], ["handler", "register", "eval"]])
+        progs = gen_progs(rng, rng.choice([2, 2, 3]), 3, kinds)
+        C.count_ops(progs)
+        ils = interleavings({t: len(p) for t, p in progs.items()})
+        if len(ils) > (60 if quick else 400):
+            ils = rng.sample(ils, 60 if quick else 400)
+        for sched in ils:
+            do_op_run(C, "op/small-" + "+".join(kinds), progs, sched)
+    for i in range(250 if quick else 4000):
+        kinds = rng.choice([["handler"], ["handler", "register", "eval"], ["register", "eval"]])
+        progs = gen_progs(rng, rng.choice([2, 3, 3]), rng.choice([4, 6, 8]), kinds)
+        C.count_ops(progs)
+        do_op_run(C, "op/random-" + "+".join(kinds), progs, random_schedule(rng, progs), use_dataset=(i % 5 == 0))
+    # 4. line level (and opcode level)
+    deadline = t0 + (110 if quick else 1300)
+    hard = broke  # an obligation broke: search harder
+    for name, progs, files, lb, ob in FIXED_LINE:
+        C.count_ops(progs)
+        bound = lb[0] if quick else lb[1]
+        do_line_explore(C, "line/" + name, progs, files, bound, scan, False, 700 if quick else 12000, rng)
+        if ob is not None:
+            obound = ob[0] if (quick and not hard) else ob[1]
+            do_line_explore(C, "opcode/" + name, progs, files, obound, scan, True, 500 if (quick and not hard) else 8000, rng)
+    i = 0
+    while time.time() < deadline and i < (12 if quick else 150):
+        i += 1
+        kinds, files = rng.choice([(["handler"], ["runtime.py"]), (["register"], ["overload.py"]),
+                                   (["eval"], ["cache.py"]), (["handler", "register"], ["runtime.py", "overload.py"])])
+        nthr = 2 if quick else rng.choice([2, 3])
+        progs = gen_progs(rng, nthr, 3, kinds)
+        C.count_ops(progs)
+        do_line_explore(C, "line/random-" + "+".join(kinds), progs, files, 2 if quick else 3, scan, False,
+                        150 if quick else 600, rng)
+    # 5. stress
+    sviol = []
+    srounds = stress(60 if quick else 8000, sviol, time.time() + (10 if quick else 240))
+    C.evals += srounds
+    # 6. model on the same programs + schedules
+    exprs = list(C.cases)
+    model_lines = ctx.coq_eval("Cases_C15", ["Model.Threads", "Model.ThreadsRun"], COQ_PRELUDE, exprs, shard=250) if exprs else []
+    nm = 0
+    for e, ml in zip(exprs, model_lines):
+        obs, payload = C.cases[e]
+        if ml != obs:
+            nm += 1
+            if len(C.mism) < 5:
+                C.mism.append(dict(where="Model/Threads.v vs labrea (same programs, same schedule)", scenario=payload,
+                                   impl=obs, model=ml))
+    if C.hangs:
+        raise RuntimeError(f"{len(C.hangs)} scenario(s) hung (harness error, not a violation): {C.hangs[0]}")
+    dist = dict(C.dist, model_cases=len(exprs), mismatches=nm, stress_rounds=srounds, oracle_failures=getattr(C, "viol_count", 0),
+                atomicity_flags=flags, scan_info=scan.get("info", {}), obligations={k: v["ok"] for k, v in obl.items()},
+                wall_s=round(time.time() - t0, 1))
+    return {
+        "evaluations": C.evals,
+        "distinct_nontrivial": len(C.distinct),
+        "rule": "a run = (programs of 2-3 threads over Enter/Exit/Run/Inherit/Register/EvalCached, schedule); operation level: all "
+                "interleavings of the fixed and small random program sets (sampled above the cap) + random schedules of larger ones; "
+                "line level: all schedules with <= 2 (quick) / 3 (thorough) preemptions between lines of labrea/runtime.py, overload.py, "
+                "cache.py (budgeted, frontier sampled beyond), opcode level with <= 1/2 preemptions for register/enter/inherit; stress "
+                "rounds with switch interval 1e-6. distinct = hash of (programs, effect-order schedule); non-trivial = >= 2 threads and "
+                "the schedule switches thread at least twice (op level) or is a mapped line-level run.",
+        "samples": C.samples,
+        "traces_validated_against_impl": len(exprs),
+        "correspondence_mismatches": (mism + C.mism)[:6],
+        "violations": C.viol + sviol,
+        "known": [],
+        "distribution": dist,
+        "exhaustive": False,
+        "notes": notes,
+        "assumptions": [
+            "a single dict/list operation (get, setdefault, item store, append, pop) is atomic under the GIL; preemption inside one "
+            "bytecode cannot be exhibited",
+            "fresh Runtime() objects are observationally equal (handlers = the defaults, which no program here changes)",
+            "equal fingerprints imply equal values (hypothesis of C15_concurrent_eval_own_value; holds for datasets whose value is a "
+            "function of the options they read; conflating fingerprints belong to C03)",
+            "programs are well nested (every Exit has a matching Enter)",
+        ],
+        "trusted_base": [
+            "fail-closed ast scan (harness/props/c15.py scan_atomicity) producing the atomicity flags",
+            "controlled schedulers (operation level: semaphores; line/opcode level: sys.settrace) and CPython's threading",
+            "PARTIAL: bytecode-internal preemption, GIL dict atomicity, lock fairness and id()-keyed _LOCKS reuse are outside the model",
+        ],
+    }
